@@ -123,7 +123,11 @@ theorem stage1Fn_length (sc : Scope) (f : Fn) :
         else 1 + f.tinst.length * (f.ndefaults + 1) := by
   unfold stage1Fn
   by_cases he : f.tinst.isEmpty = true
-  · by_cases hu : f.usesT = true <;> simp [he, hu]
+  · by_cases hu : f.usesT = true
+    · by_cases hd : f.ndefaults = 0
+      · simp [he, hu, hd]
+      · simp [he, hu, hd, variants_length]
+    · simp [he, hu]
   · by_cases hd : f.ndefaults = 0
     · simp [he, hd, templateClones_length]; omega
     · simp only [he, hd, Bool.false_eq_true, ↓reduceIte, List.length_cons]
@@ -154,18 +158,22 @@ theorem stage1Fn_sum (sc : Scope) (f : Fn) (g : Rec → Nat) (K : Nat)
     (h0 : ∀ r : Rec, r.wrap = ⟨false, false, false, false⟩ → g r = 0)
     (hdc : ∀ k, g (defaultClone sc f k) = K)
     (ho : g (original sc f) = K)
-    (hu : g { original sc f with gen := .cxxTemplate, wrap := sc.w0 } = K)
+    (hu : g { f.base sc with gen := .cxxTemplate, wrap := sc.w0 } = K)
     (hc : ∀ c ∈ templateClones (f.base sc) sc.w0 0 f.tinst, g c = K) :
     ((stage1Fn sc f).map g).sum
       = (if f.tinst.isEmpty then f.ndefaults + 1 else f.tinst.length * (f.ndefaults + 1)) * K := by
   unfold stage1Fn
   by_cases he : f.tinst.isEmpty = true
   · simp only [he, ↓reduceIte]
-    rw [List.map_append, List.sum_append, List.map_map,
-      sum_map_const (g ∘ defaultClone sc f) K _ (by intro k _; exact hdc k)]
     by_cases hut : f.usesT = true
-    · simp [hut, hu, h0, Nat.add_mul]
-    · simp [hut, ho, Nat.add_mul]
+    · by_cases hd : f.ndefaults = 0
+      · simp [hut, hd, hu, h0]
+      · simp only [hut, hd, ↓reduceIte, List.map_cons, List.sum_cons]
+        rw [h0 _ rfl, variants_sum g hs hv hl, hu]; simp
+    · simp only [hut, Bool.false_eq_true, ↓reduceIte]
+      rw [List.map_append, List.sum_append, List.map_map,
+        sum_map_const (g ∘ defaultClone sc f) K _ (by intro k _; exact hdc k)]
+      simp [ho, Nat.add_mul]
   · by_cases hd : f.ndefaults = 0
     · simp only [he, hd, Bool.false_eq_true, ↓reduceIte, List.map_cons, List.sum_cons]
       rw [h0 _ rfl, sum_map_const g K _ hc, templateClones_length]
@@ -182,7 +190,7 @@ theorem stage1Fn_sum_cw (sc : Scope) (f : Fn) (hc : sc.w0.c = true) (hf : sc.w0.
   · intro r h; simp [cw, h]
   · intro k; simp [cw, defaultClone, Fn.base, hc, hf]
   · simp [cw, original_wrap, original_hasBuf, hc, hf]
-  · simp [cw, original_hasBuf, hc, hf]
+  · simp [cw, Fn.base, hc, hf]
   · intro c hcm
     obtain ⟨h1, h2, _⟩ := templateClones_fields _ _ _ _ c hcm
     simp [cw, h1, h2, hc, hf, Fn.base]
@@ -198,7 +206,7 @@ theorem stage1Fn_sum_fw (sc : Scope) (f : Fn) (hf : sc.w0.f = true) :
   · intro r h; simp [fw, h]
   · intro k; simp [fw, defaultClone, Fn.base, hg, genericSuffixes_length, hf]
   · simp [fw, original_wrap, original_generics, hf, hg, genericSuffixes_length]
-  · simp [fw, original_generics, hf, hg, genericSuffixes_length]
+  · simp [fw, Fn.base, hf, hg, genericSuffixes_length]
   · intro c hcm
     obtain ⟨h1, _, h3⟩ := templateClones_fields _ _ _ _ c hcm
     simp [fw, h1, h3, hf, Fn.base, hg, genericSuffixes_length]
@@ -297,6 +305,13 @@ example : ((core exScope exTmplDefault).filter (fun r => r.wrap.c)).map (cName e
        "NM_outer_tmpl_0_double", "NM_outer_tmpl_1_double", "NM_outer_tmpl_2_double"].map String.toList := by
   decide +kernel
 example : CoreOK (fun w => w.c) (stage1 exScope exTmplDefault) := by constructor <;> decide +kernel
+
+/-- A member of a class template that uses the template parameter and has default arguments
+    (after the repair): the instantiated clone and its default-argument variants, numbered. -/
+example : ((core exScope [{ exFn "fill" 3 2 none with usesT := true }]).filter (fun r => r.wrap.c)).map
+      (cName exScope)
+    = ["NM_outer_fill_0", "NM_outer_fill_1", "NM_outer_fill_2"].map String.toList := by
+  decide +kernel
 
 /-- Outside the domain (DESIGN 2.3 #18): an explicit `function_suffix: _1` on one overload
     coincides with the automatic `_1` of another; two C functions get the same name. -/
@@ -604,14 +619,25 @@ theorem stage1Fn_mem (sc : Scope) (f : Fn) :
     ∀ r ∈ stage1Fn sc f, r.name = f.name ∧ r.isCtor = f.isCtor := by
   intro r hr
   unfold stage1Fn at hr
+  have hvl : ∀ c : Rec, (variantLast f c).name = c.name ∧ (variantLast f c).isCtor = c.isCtor := by
+    intro c; unfold variantLast; split <;> exact ⟨rfl, rfl⟩
   split at hr
-  · simp only [List.mem_append, List.mem_map] at hr
-    rcases hr with ⟨k, _, rfl⟩ | hr
-    · exact ⟨rfl, rfl⟩
+  · split at hr
     · split at hr
       · simp only [List.mem_cons, List.not_mem_nil, or_false] at hr
-        rcases hr with rfl | rfl <;> exact original_name sc f
-      · simp at hr; rw [hr]; exact original_name sc f
+        rcases hr with rfl | rfl <;> exact ⟨rfl, rfl⟩
+      · simp only [List.mem_cons] at hr
+        rcases hr with rfl | hr
+        · exact ⟨rfl, rfl⟩
+        · obtain ⟨r0, h0, e⟩ := numberVariants_mem _ _ r hr
+          simp only [List.mem_append, List.mem_map, List.mem_singleton] at h0
+          rcases h0 with ⟨k, _, rfl⟩ | rfl
+          · exact e
+          · exact ⟨e.1.trans (hvl _).1, e.2.trans (hvl _).2⟩
+    · simp only [List.mem_append, List.mem_map, List.mem_singleton] at hr
+      rcases hr with ⟨k, _, rfl⟩ | rfl
+      · exact ⟨rfl, rfl⟩
+      · exact original_name sc f
   · split at hr
     · simp only [List.mem_cons] at hr
       rcases hr with rfl | hr
